@@ -1,77 +1,1032 @@
+// Command check decides one property: it loads /repo's current working tree with the property's
+// harnesses as overlays, explores every harness entry symbolically, replays counterexamples against
+// the native build, writes /verif/evidence/<id>.json and exits 0 (held), 1 (violation) or 2
+// (inconclusive / broken).
 package main
 
 import (
+	"encoding/json"
 	"flag"
 	"fmt"
 	"os"
+	"os/exec"
 	"path/filepath"
 	"sort"
+	"strconv"
+	"strings"
+	"sync"
 	"time"
 
 	"verif.local/symgo/sym"
 )
 
+type tierCfg struct {
+	MaxPaths  int
+	TimeoutMs int
+	MaxSteps  int64
+	MaxDec    int
+	EnumCap   int
+	CrossN    int
+	NativeN   int
+	Deadline  time.Duration
+}
+
+var tiers = map[string]tierCfg{
+	"quick":    {MaxPaths: 30000, TimeoutMs: 10000, MaxSteps: 30_000_000, MaxDec: 4000, EnumCap: 80, CrossN: 12, NativeN: 4, Deadline: 9 * time.Minute},
+	"thorough": {MaxPaths: 3000000, TimeoutMs: 120000, MaxSteps: 200_000_000, MaxDec: 20000, EnumCap: 300, CrossN: 400, NativeN: 12, Deadline: 170 * time.Minute},
+}
+
+type cond struct {
+	Input string `json:"input"`
+	Op    string `json:"op"`
+	Value uint64 `json:"value"`
+}
+
+type knownFinding struct {
+	Status   string `json:"status"` // "known" or "fixed"
+	Property string `json:"property"`
+	Label    string `json:"label"`
+	Harness  string `json:"harness,omitempty"`
+	Where    []cond `json:"where,omitempty"`
+	What     string `json:"what"`
+	Commit   string `json:"commit,omitempty"`
+}
+
+type replayCase struct {
+	Property string            `json:"property"`
+	File     string            `json:"harness_file"`
+	Pkg      string            `json:"pkg"`
+	Entry    string            `json:"entry"`
+	Label    string            `json:"label"`
+	Kind     string            `json:"kind"`
+	Detail   string            `json:"detail"`
+	Tier     string            `json:"tier"`
+	Params   map[string]int64  `json:"params"`
+	Inputs   []sym.InputVal    `json:"inputs"`
+	Native   bool              `json:"native_replayable"`
+	Result   string            `json:"replay_result,omitempty"`
+	Output   string            `json:"replay_output,omitempty"`
+	Fixed    map[string]uint64 `json:"-"`
+}
+
+type entryReport struct {
+	Name        string         `json:"harness"`
+	File        string         `json:"file"`
+	Doc         string         `json:"what,omitempty"`
+	Params      map[string]int64 `json:"bounds"`
+	Paths       int            `json:"paths"`
+	Completed   int            `json:"completed"`
+	Aborted     map[string]int `json:"aborted,omitempty"`
+	Decisions   int            `json:"decisions"`
+	SymBranches int            `json:"symbolic_branches"`
+	Obligations int            `json:"obligations"`
+	Discharged  int            `json:"discharged"`
+	Trivial     int            `json:"discharged_without_solver"`
+	Queries     int            `json:"queries"`
+	SolverS     float64        `json:"solver_s"`
+	WallS       float64        `json:"wall_s"`
+	Steps       int64          `json:"ssa_instructions"`
+	Covers      map[string]int `json:"cover_labels"`
+	Labels      map[string]int `json:"assert_labels"`
+	Samples     []string       `json:"sample_paths"`
+	Violations  int            `json:"violations"`
+	Inconcl     []string       `json:"inconclusive,omitempty"`
+}
+
 func main() {
-	tier := flag.String("tier", "quick", "quick|thorough")
-	only := flag.String("only", "", "run only this entry")
+	tier := flag.String("tier", os.Getenv("VERIF_TIER"), "quick|thorough")
+	only := flag.String("only", "", "run only entries whose name contains this")
 	repo := flag.String("repo", "/repo", "repository root")
-	hdir := flag.String("harness", "/verif/harness", "harness root")
+	root := flag.String("root", "/verif", "verif root")
 	workers := flag.Int("workers", 16, "parallel workers")
+	replay := flag.String("replay", "", "replay a recorded case file")
+	noNative := flag.Bool("no-native", false, "skip native differential/replay")
+	solverKind := flag.String("solver", "z3", "primary solver")
 	verbose := flag.Bool("v", false, "verbose")
 	flag.Parse()
+	if *tier == "" {
+		*tier = "quick"
+	}
+	tc, ok := tiers[*tier]
+	if !ok {
+		fmt.Println("unknown tier", *tier)
+		os.Exit(2)
+	}
 	if flag.NArg() < 1 {
 		fmt.Println("usage: check [flags] <PROPERTY>")
 		os.Exit(2)
 	}
 	prop := flag.Arg(0)
-	files, _ := filepath.Glob(filepath.Join(*hdir, prop, "*.go"))
+	seed := int64(0)
+	if s := os.Getenv("VERIF_SEED"); s != "" {
+		seed, _ = strconv.ParseInt(s, 10, 64)
+	}
+	os.Setenv("GOFLAGS", "-mod=mod")
+	os.Setenv("GOPROXY", "off")
+	os.Unsetenv("GOSUMDB")
+	os.Unsetenv("GOTOOLCHAIN")
+
+	t0 := time.Now()
+	work := filepath.Join(*root, ".work", prop+"-"+*tier)
+	os.RemoveAll(work)
+	os.MkdirAll(filepath.Join(work, "smt"), 0o755)
+	evPath := filepath.Join(*root, "evidence", prop+".json")
+	os.MkdirAll(filepath.Dir(evPath), 0o755)
+
+	inconclusive := func(msg string) {
+		fmt.Printf("INCONCLUSIVE property=%s %s\n", prop, msg)
+		os.Exit(2)
+	}
+
+	files, _ := filepath.Glob(filepath.Join(*root, "harness", prop, "*.go"))
 	sort.Strings(files)
+	if len(files) == 0 {
+		inconclusive("no harness files")
+	}
 	var hfs []*sym.HarnessFile
 	for _, f := range files {
 		hf, err := sym.ParseHarnessFile(f)
 		if err != nil {
-			fmt.Println("INCONCLUSIVE", err)
-			os.Exit(2)
+			inconclusive(err.Error())
 		}
 		hfs = append(hfs, hf)
 	}
-	t0 := time.Now()
+	sym.DepWork = work
 	l, err := sym.Load(*repo, hfs, nil)
 	if err != nil {
-		fmt.Println("INCONCLUSIVE load:", err)
-		os.Exit(2)
+		inconclusive("load: " + err.Error())
 	}
-	fmt.Printf("loaded in %.1fs\n", time.Since(t0).Seconds())
+	loadS := time.Since(t0).Seconds()
+	fmt.Printf("[%s %s] loaded %d harness files in %.1fs\n", prop, *tier, len(hfs), loadS)
+
+	known := loadKnown(filepath.Join(*root, "known_findings.json"), prop)
+
+	if *replay != "" {
+		os.Exit(doReplay(*replay, *repo, *root, work, hfs, l, tc))
+	}
+
+	deadline := time.Now().Add(tc.Deadline)
+	var reports []*entryReport
+	var allViol []*sym.Violation
+	violEntry := map[*sym.Violation]*sym.EntrySpec{}
+	violProg := map[*sym.Violation]*sym.Program{}
+	funcs := map[string]int{}
+	var inconcl []string
+	var engineErrs []string
+	totalPaths, totalDec, totalObl, totalDis, totalQ := 0, 0, 0, 0, 0
+	var solverS float64
+	var stubs, assumes, outside []string
+	var sampleCases []replayCase
+	missingCovers := []string{}
+
 	for _, hf := range hfs {
 		p, err := sym.NewProgram(l, hf, *tier)
 		if err != nil {
-			fmt.Println("INCONCLUSIVE", err)
-			os.Exit(2)
+			inconclusive(err.Error())
 		}
+		stubs = append(stubs, hf.Stubs...)
+		for _, r := range hf.Replaces {
+			stubs = append(stubs, fmt.Sprintf("%s replaced by harness function %s", r[0], r[1]))
+		}
+		assumes = append(assumes, hf.Assumes...)
+		outside = append(outside, hf.Outside...)
 		for _, e := range hf.Entries {
-			if *only != "" && e.Func != *only {
+			if *only != "" && !strings.Contains(e.Func, *only) {
+				continue
+			}
+			if t := e.Opts["tier"]; t != "" && t != *tier {
 				continue
 			}
 			fn := l.Pkgs[hf.PkgPath].Func(e.Func)
-			cfg := sym.RunConfig{P: p, Entry: fn, Name: e.Func, Workers: *workers, MaxPaths: 20000,
-				Lim: sym.Limits{MaxDecisions: 5000, MaxSteps: 20_000_000, EnumCap: 64}, Solver: "z3", TimeoutMs: 10000, Verbose: *verbose}
+			if fn == nil {
+				inconclusive("entry " + e.Func + " not found")
+			}
+			cfg := sym.RunConfig{P: p, Entry: fn, Name: e.Func, Workers: *workers, MaxPaths: tc.MaxPaths,
+				Lim:    sym.Limits{MaxDecisions: tc.MaxDec, MaxSteps: tc.MaxSteps, EnumCap: tc.EnumCap},
+				Solver: *solverKind, TimeoutMs: tc.TimeoutMs, Verbose: *verbose,
+				DumpDir: filepath.Join(work, "smt"), DumpMax: tc.CrossN, Deadline: deadline}
+			if v := e.Opts["paths"]; v != "" {
+				cfg.MaxPaths, _ = strconv.Atoi(v)
+			}
+			if v := e.Opts["enum"]; v != "" {
+				cfg.Lim.EnumCap, _ = strconv.Atoi(v)
+			}
+			if v := e.Opts["steps"]; v != "" {
+				n, _ := strconv.ParseInt(v, 10, 64)
+				cfg.Lim.MaxSteps = n
+			}
+			if v := e.Opts["timeout_ms"]; v != "" {
+				cfg.TimeoutMs, _ = strconv.Atoi(v)
+			}
 			r := sym.Explore(cfg)
 			st := r.Stats
-			fmt.Printf("%s: paths=%d completed=%d aborted=%v oblig=%d discharged=%d queries=%d wall=%.2fs solver=%.2fs steps=%d\n",
-				e.Func, st.Paths, st.Completed, st.Aborted, st.Obligations, st.Discharged, st.Queries, r.Wall.Seconds(), r.SolverTime.Seconds(), st.Steps)
-			for _, v := range st.Violations {
-				fmt.Printf("  VIOL %s %s %s inputs=%v\n", v.Kind, v.Label, v.Detail, v.Inputs)
+			rep := &entryReport{Name: e.Func, File: filepath.Base(hf.Path), Doc: e.Doc, Params: p.Params, Paths: st.Paths, Completed: st.Completed,
+				Aborted: st.Aborted, Decisions: st.Decisions, SymBranches: st.SymBranches, Obligations: st.Obligations,
+				Discharged: st.Discharged, Trivial: st.TrivialOblig, Queries: st.Queries, SolverS: r.SolverTime.Seconds(),
+				WallS: r.Wall.Seconds(), Steps: st.Steps, Covers: st.Covers, Labels: st.AssertLabels, Samples: st.SamplePaths,
+				Violations: len(st.Violations), Inconcl: st.Inconclusive}
+			reports = append(reports, rep)
+			fmt.Printf("  %-40s paths=%d completed=%d aborted=%v oblig=%d/%d queries=%d wall=%.1fs solver=%.1fs viol=%d\n",
+				e.Func, st.Paths, st.Completed, st.Aborted, st.Discharged, st.Obligations, st.Queries, r.Wall.Seconds(), r.SolverTime.Seconds(), len(st.Violations))
+			for k, n := range st.Funcs {
+				funcs[k] += n
 			}
 			for _, s := range st.Inconclusive {
-				fmt.Println("  INCONCLUSIVE:", s)
+				inconcl = append(inconcl, e.Func+": "+s)
 			}
 			for _, s := range st.EngineErrors {
-				fmt.Println("  ENGINE:", s)
+				engineErrs = append(engineErrs, e.Func+": "+s)
 			}
-			fmt.Println("  covers:", st.Covers)
-			for _, s := range st.SamplePaths {
-				fmt.Println("  sample:", s)
+			for _, c := range e.Covers {
+				if st.Covers[c] == 0 {
+					missingCovers = append(missingCovers, e.Func+":"+c)
+				}
+			}
+			if st.Completed == 0 && len(st.Violations) == 0 {
+				inconcl = append(inconcl, e.Func+": no path completed (vacuous harness)")
+			}
+			if e.Opts["allow_blocked"] == "" && st.Aborted["blocked"] > 0 {
+				inconcl = append(inconcl, fmt.Sprintf("%s: %d paths ended blocked (channel/mutex) — not allowed by harness", e.Func, st.Aborted["blocked"]))
+			}
+			totalPaths += st.Paths
+			totalDec += st.Decisions
+			totalObl += st.Obligations
+			totalDis += st.Discharged
+			totalQ += st.Queries
+			solverS += r.SolverTime.Seconds()
+			seen := map[string]int{}
+			for _, v := range st.Violations {
+				v.Harness = e.Func
+				seen[v.Label]++
+				if seen[v.Label] > 3 {
+					continue
+				}
+				allViol = append(allViol, v)
+				violEntry[v] = e
+				violProg[v] = p
 			}
 		}
 	}
+
+	// classify violations
+	exit := 0
+	var newViol, knownViol []*sym.Violation
+	knownHit := map[int]bool{}
+	for _, v := range allViol {
+		if i := matchKnown(known, v); i >= 0 {
+			knownViol = append(knownViol, v)
+			knownHit[i] = true
+		} else {
+			newViol = append(newViol, v)
+		}
+	}
+	for i, k := range known {
+		if k.Status == "known" && knownHit[i] {
+			fmt.Printf("KNOWN-FINDING: property=%s %s [%s]\n", prop, k.What, k.Label)
+		}
+	}
+
+	// replay new violations against the native build (or concretely in the interpreter)
+	replayDir := filepath.Join(*root, "replay", prop)
+	nativeOK := !*noNative
+	var confirmed []string
+	reportedLabels := map[string]bool{}
+	for i, v := range newViol {
+		e := violEntry[v]
+		rc := mkCase(prop, *tier, e, violProg[v], v)
+		os.MkdirAll(replayDir, 0o755)
+		path := filepath.Join(replayDir, fmt.Sprintf("%s-%d.json", e.Func, i))
+		res, out := "interp-confirmed", ""
+		// 1. concrete re-execution in the interpreter
+		ok := interpReplay(l, e, violProg[v], rc, *workers, tc)
+		if !ok {
+			res = "ENGINE-MISMATCH(interp)"
+		}
+		// 2. native
+		if ok && rc.Native && nativeOK {
+			nres, nout := nativeReplay(*repo, work, hfs, []replayCase{rc})
+			out = nout
+			if len(nres) == 1 && nres[0].matches(rc) {
+				res = "native-confirmed"
+			} else {
+				res = "ENGINE-MISMATCH(native)"
+				ok = false
+			}
+		}
+		rc.Result = res
+		rc.Output = clip(out, 4000)
+		b, _ := json.MarshalIndent(rc, "", " ")
+		os.WriteFile(path, b, 0o644)
+		if ok {
+			if !reportedLabels[v.Label+e.Func] {
+				fmt.Printf("VIOLATION property=%s replay=%s\n", prop, path)
+				fmt.Printf("  harness=%s label=%s kind=%s detail=%s (%s)\n", e.Func, v.Label, v.Kind, v.Detail, res)
+				reportedLabels[v.Label+e.Func] = true
+			}
+			confirmed = append(confirmed, path)
+			exit = 1
+		} else {
+			inconcl = append(inconcl, fmt.Sprintf("%s: counterexample for %s did not reproduce (%s) — engine or stub mismatch, see %s", e.Func, v.Label, res, path))
+		}
+	}
+
+	// differential validation of the translator on witness inputs (native vs interpreter)
+	validated, mismatches := 0, []string{}
+	if nativeOK && exit == 0 {
+		validated, mismatches, sampleCases = differential(*repo, work, hfs, l, *tier, reports, tc, *only)
+		for _, m := range mismatches {
+			inconcl = append(inconcl, "translator differential mismatch: "+m)
+		}
+	}
+	_ = sampleCases
+
+	// second opinion on dumped obligations
+	crossN, crossBad := crossCheck(filepath.Join(work, "smt"), tc, *solverKind)
+	for _, b := range crossBad {
+		inconcl = append(inconcl, "solver disagreement: "+b)
+	}
+
+	for _, m := range missingCovers {
+		inconcl = append(inconcl, "cover label never reached: "+m)
+	}
+	for _, e := range engineErrs {
+		inconcl = append(inconcl, "engine: "+clip(e, 600))
+	}
+
+	// evidence
+	var fnames []string
+	for k := range funcs {
+		if strings.Contains(k, "zzsym") || strings.Contains(k, ".zz") {
+			continue
+		}
+		fnames = append(fnames, k)
+	}
+	sort.Strings(fnames)
+	var repoFuncs, depFuncs []string
+	for _, f := range fnames {
+		if strings.Contains(f, "github.com/pion/dtls/v3") {
+			repoFuncs = append(repoFuncs, strings.ReplaceAll(f, "github.com/pion/dtls/v3", "dtls"))
+		} else {
+			depFuncs = append(depFuncs, f)
+		}
+	}
+	var samples []any
+	for _, r := range reports {
+		s := map[string]any{"harness": r.Name, "bounds": r.Params, "paths": r.Paths}
+		if len(r.Samples) > 0 {
+			s["explored_path"] = r.Samples[0]
+		}
+		samples = append(samples, s)
+	}
+	if len(samples) == 0 {
+		samples = append(samples, "no harness ran")
+	}
+	var knownLines []string
+	for i, k := range known {
+		if k.Status == "known" && knownHit[i] {
+			knownLines = append(knownLines, k.Label+": "+k.What)
+		}
+	}
+	ev := map[string]any{
+		"property_id": prop,
+		"tier":        *tier,
+		"seed":        seed,
+		"level":       "model_checking",
+		"wall_s":      time.Since(t0).Seconds(),
+		"violations":  len(confirmed),
+		"assumptions": append(append([]string{
+			"bounded symbolic execution of go/ssa built from /repo's working tree on this run; verdicts hold only within the bounds listed per harness",
+			"single-threaded execution: goroutine interleavings are outside the claim",
+			"map iteration in insertion order",
+		}, assumes...), prefixAll("stub: ", stubs)...),
+		"coverage": map[string]any{
+			"states":                        totalPaths,
+			"transitions":                   totalDec,
+			"traces_validated_against_impl": validated,
+			"samples":                       samples,
+			"obligations":                   totalObl,
+			"discharged":                    totalDis,
+			"queries":                       totalQ,
+			"solver_s":                      solverS,
+			"load_s":                        loadS,
+			"harnesses":                     reports,
+			"functions_encoded":             repoFuncs,
+			"dependency_functions_encoded":  len(depFuncs),
+			"cross_checked_obligations":     crossN,
+			"cross_check_solver":            crossSolver(*solverKind),
+			"outside_the_claim":             outside,
+			"inconclusive":                  inconcl,
+			"known_findings_observed":       knownLines,
+			"solver":                        *solverKind,
+			"exhaustive":                    false,
+		},
+	}
+	b, _ := json.MarshalIndent(ev, "", " ")
+	if err := os.WriteFile(evPath, b, 0o644); err != nil {
+		fmt.Println("cannot write evidence:", err)
+		os.Exit(2)
+	}
+	fmt.Printf("[%s %s] paths=%d decisions=%d obligations=%d/%d queries=%d solver=%.1fs validated=%d cross=%d wall=%.1fs\n",
+		prop, *tier, totalPaths, totalDec, totalDis, totalObl, totalQ, solverS, validated, crossN, time.Since(t0).Seconds())
+	os.RemoveAll(work)
+	if exit == 1 {
+		os.Exit(1)
+	}
+	if len(inconcl) > 0 {
+		for _, s := range inconcl {
+			fmt.Printf("INCONCLUSIVE property=%s %s\n", prop, clip(s, 800))
+		}
+		os.Exit(2)
+	}
+	fmt.Printf("OK property=%s: every obligation discharged within the stated bounds\n", prop)
+}
+
+func prefixAll(p string, xs []string) []string {
+	var out []string
+	for _, x := range xs {
+		out = append(out, p+x)
+	}
+	return out
+}
+
+func clip(s string, n int) string {
+	if len(s) > n {
+		return s[:n] + "…"
+	}
+	return s
+}
+
+func loadKnown(path, prop string) []knownFinding {
+	b, err := os.ReadFile(path)
+	if err != nil {
+		return nil
+	}
+	var all []knownFinding
+	if err := json.Unmarshal(b, &all); err != nil {
+		fmt.Println("INCONCLUSIVE bad known_findings.json:", err)
+		os.Exit(2)
+	}
+	var out []knownFinding
+	for _, k := range all {
+		if k.Property == prop {
+			out = append(out, k)
+		}
+	}
+	return out
+}
+
+func matchKnown(known []knownFinding, v *sym.Violation) int {
+	for i, k := range known {
+		if k.Status != "known" {
+			continue
+		}
+		if k.Harness != "" && k.Harness != v.Harness {
+			continue
+		}
+		if k.Label != v.Label {
+			continue
+		}
+		ok := true
+		vals := map[string]uint64{}
+		for _, in := range v.Inputs {
+			vals[in.Name] = in.Val
+		}
+		for _, c := range k.Where {
+			x := vals[c.Input]
+			switch c.Op {
+			case "==":
+				ok = ok && x == c.Value
+			case "!=":
+				ok = ok && x != c.Value
+			case "<":
+				ok = ok && x < c.Value
+			case ">":
+				ok = ok && x > c.Value
+			case "<=":
+				ok = ok && x <= c.Value
+			case ">=":
+				ok = ok && x >= c.Value
+			}
+		}
+		if ok {
+			return i
+		}
+	}
+	return -1
+}
+
+func mkCase(prop, tier string, e *sym.EntrySpec, p *sym.Program, v *sym.Violation) replayCase {
+	rc := replayCase{Property: prop, File: filepath.Base(e.File.Path), Pkg: e.File.PkgPath, Entry: e.Func, Label: v.Label,
+		Kind: v.Kind, Detail: v.Detail, Tier: tier, Params: p.Params, Inputs: v.Inputs, Fixed: map[string]uint64{}}
+	for _, in := range v.Inputs {
+		rc.Fixed[in.Name] = in.Val
+	}
+	rc.Native = nativeReplayable(e.File)
+	return rc
+}
+
+func nativeReplayable(hf *sym.HarnessFile) bool {
+	if len(hf.Replaces) > 0 {
+		return false
+	}
+	if strings.Contains(string(hf.Src), "zzsymUF(") {
+		return false
+	}
+	if strings.Contains(string(hf.Src), "symgo:native no") {
+		return false
+	}
+	return true
+}
+
+// interpReplay re-executes the entry concretely with the model and checks the same label fails.
+func interpReplay(l *sym.Loaded, e *sym.EntrySpec, p *sym.Program, rc replayCase, workers int, tc tierCfg) bool {
+	if strings.Contains(string(e.File.Src), "zzsymUF(") {
+		return true // UF values are not part of the model; cannot re-execute concretely
+	}
+	fn := l.Pkgs[e.File.PkgPath].Func(e.Func)
+	cfg := sym.RunConfig{P: p, Entry: fn, Name: e.Func, Workers: 1, MaxPaths: 10,
+		Lim: sym.Limits{MaxDecisions: tc.MaxDec, MaxSteps: tc.MaxSteps, EnumCap: tc.EnumCap}, Fixed: rc.Fixed}
+	r := sym.Explore(cfg)
+	for _, v := range r.Stats.Violations {
+		if v.Label == rc.Label {
+			return true
+		}
+	}
+	return false
+}
+
+func doReplay(path, repo, root, work string, hfs []*sym.HarnessFile, l *sym.Loaded, tc tierCfg) int {
+	b, err := os.ReadFile(path)
+	if err != nil {
+		fmt.Println("cannot read replay file:", err)
+		return 2
+	}
+	var rc replayCase
+	if err := json.Unmarshal(b, &rc); err != nil {
+		fmt.Println("bad replay file:", err)
+		return 2
+	}
+	rc.Fixed = map[string]uint64{}
+	for _, in := range rc.Inputs {
+		rc.Fixed[in.Name] = in.Val
+	}
+	for _, hf := range hfs {
+		if filepath.Base(hf.Path) != rc.File {
+			continue
+		}
+		for _, e := range hf.Entries {
+			if e.Func != rc.Entry {
+				continue
+			}
+			p, err := sym.NewProgram(l, hf, rc.Tier)
+			if err != nil {
+				fmt.Println(err)
+				return 2
+			}
+			for k, v := range rc.Params {
+				p.Params[k] = v
+			}
+			ok := interpReplay(l, e, p, rc, 1, tc)
+			fmt.Printf("interpreter replay: reproduced=%v\n", ok)
+			if rc.Native {
+				res, out := nativeReplay(repo, work, hfs, []replayCase{rc})
+				fmt.Println(out)
+				if len(res) == 1 && res[0].matches(rc) {
+					fmt.Printf("VIOLATION property=%s replay=%s\n", rc.Property, path)
+					return 1
+				}
+				fmt.Println("native replay: not reproduced")
+				return 0
+			}
+			if ok {
+				fmt.Printf("VIOLATION property=%s replay=%s\n", rc.Property, path)
+				return 1
+			}
+			return 0
+		}
+	}
+	fmt.Println("replay: harness entry not found")
+	return 2
+}
+
+// ---------- native execution of harness entries (real build, go test -overlay) ----------
+
+type nativeResult struct {
+	AssertFails []string
+	Panic       string
+	AssumeFail  bool
+	Obs         []string
+	Ran         bool
+}
+
+func (r nativeResult) matches(rc replayCase) bool {
+	if !r.Ran {
+		return false
+	}
+	if rc.Kind == "panic" {
+		return r.Panic != ""
+	}
+	for _, l := range r.AssertFails {
+		if l == rc.Label {
+			return true
+		}
+	}
+	return false
+}
+
+const nativeRT = `
+import (
+	"encoding/json"
+	"fmt"
+	"os"
+	"runtime/debug"
+	"strings"
+)
+
+type zzCase struct {
+	Entry  string            ` + "`json:\"entry\"`" + `
+	Inputs map[string]uint64 ` + "`json:\"inputs\"`" + `
+	Params map[string]int64  ` + "`json:\"params\"`" + `
+}
+type zzAssumeFail struct{}
+
+var (
+	zzIn     map[string]uint64
+	zzParams map[string]int64
+	zzCnt    map[string]int
+)
+
+func zzfresh(name string) string {
+	n := zzCnt[name]
+	zzCnt[name] = n + 1
+	if n == 0 {
+		return name
+	}
+	return fmt.Sprintf("%s#%d", name, n)
+}
+func zzsymU8(name string) uint8    { return uint8(zzIn[zzfresh(name)]) }
+func zzsymU16(name string) uint16  { return uint16(zzIn[zzfresh(name)]) }
+func zzsymU32(name string) uint32  { return uint32(zzIn[zzfresh(name)]) }
+func zzsymU64(name string) uint64  { return zzIn[zzfresh(name)] }
+func zzsymI64(name string) int64   { return int64(zzIn[zzfresh(name)]) }
+func zzsymInt(name string) int     { return int(zzIn[zzfresh(name)]) }
+func zzsymBool(name string) bool   { return zzIn[zzfresh(name)] != 0 }
+func zzsymBytes(name string, n int) []byte {
+	base := zzfresh(name)
+	b := make([]byte, n)
+	for i := range b {
+		b[i] = byte(zzIn[fmt.Sprintf("%s[%d]", base, i)])
+	}
+	return b
+}
+func zzsymString(name string, n int) string { return string(zzsymBytes(name, n)) }
+func zzsymAssume(c bool) {
+	if !c {
+		panic(zzAssumeFail{})
+	}
+}
+func zzsymAssert(c bool, label string) {
+	if !c {
+		fmt.Println("ZZSYM-ASSERT-FAIL", label)
+	}
+}
+func zzsymFail(label string)            { fmt.Println("ZZSYM-ASSERT-FAIL", label) }
+func zzsymCover(label string)           {}
+func zzsymChoice(name string, n int) int { return int(zzIn[zzfresh(name)]) }
+func zzsymParam(name string) int        { return int(zzParams[name]) }
+func zzsymAnd(a, b bool) bool           { return a && b }
+func zzsymOr(a, b bool) bool            { return a || b }
+func zzsymNot(a bool) bool              { return !a }
+func zzsymImplies(a, b bool) bool       { return !a || b }
+func zzsymEqBytes(a, b []byte) bool     { return string(a) == string(b) }
+func zzsymEqStr(a, b string) bool       { return a == b }
+func zzsymIteU64(c bool, a, b uint64) uint64 { if c { return a }; return b }
+func zzsymIteInt(c bool, a, b int) int { if c { return a }; return b }
+func zzsymIteU8(c bool, a, b uint8) uint8 { if c { return a }; return b }
+func zzsymIteU16(c bool, a, b uint16) uint16 { if c { return a }; return b }
+func zzsymIteU32(c bool, a, b uint32) uint32 { if c { return a }; return b }
+func zzsymUF(name string, outLen int, args ...[]byte) []byte { panic("zzsymUF is not available natively") }
+func zzsymObserveBytes(label string, b []byte) { fmt.Printf("ZZSYM-OBS %s=%x\n", label, b) }
+func zzsymObserveInt(label string, v int)      { fmt.Printf("ZZSYM-OBS %s=%d\n", label, v) }
+func zzsymObserveBool(label string, v bool)    { fmt.Printf("ZZSYM-OBS %s=%v\n", label, v) }
+func zzsymSymbolic() bool                      { return false }
+
+func zzRunCases(entries map[string]func()) {
+	b, err := os.ReadFile(os.Getenv("ZZSYM_CASES"))
+	if err != nil {
+		fmt.Println("ZZSYM-ERROR", err)
+		return
+	}
+	var cases []zzCase
+	if err := json.Unmarshal(b, &cases); err != nil {
+		fmt.Println("ZZSYM-ERROR", err)
+		return
+	}
+	for i, c := range cases {
+		f, ok := entries[c.Entry]
+		if !ok {
+			continue
+		}
+		fmt.Printf("ZZSYM-CASE %d BEGIN\n", i)
+		zzIn, zzParams, zzCnt = c.Inputs, c.Params, map[string]int{}
+		if zzIn == nil {
+			zzIn = map[string]uint64{}
+		}
+		func() {
+			defer func() {
+				if r := recover(); r != nil {
+					if _, ok := r.(zzAssumeFail); ok {
+						fmt.Println("ZZSYM-ASSUME-FAIL")
+						return
+					}
+					fmt.Printf("ZZSYM-PANIC %v\n", strings.ReplaceAll(fmt.Sprint(r), "\n", " "))
+					fmt.Println(string(debug.Stack()))
+				}
+			}()
+			f()
+		}()
+		fmt.Printf("ZZSYM-CASE %d END\n", i)
+	}
+}
+`
+
+// nativeReplay runs cases natively; returns one result per case (in order).
+func nativeReplay(repo, work string, hfs []*sym.HarnessFile, cases []replayCase) ([]nativeResult, string) {
+	results := make([]nativeResult, len(cases))
+	byPkg := map[string][]int{}
+	for i, c := range cases {
+		byPkg[c.Pkg] = append(byPkg[c.Pkg], i)
+	}
+	var outAll strings.Builder
+	var pkgs []string
+	for p := range byPkg {
+		pkgs = append(pkgs, p)
+	}
+	sort.Strings(pkgs)
+	var mu sync.Mutex
+	var wg sync.WaitGroup
+	sem := make(chan struct{}, 4)
+	for pi, pkg := range pkgs {
+		wg.Add(1)
+		go func(pi int, pkg string) {
+			defer wg.Done()
+			sem <- struct{}{}
+			defer func() { <-sem }()
+			idxs := byPkg[pkg]
+			dir := filepath.Join(work, fmt.Sprintf("native%d_%d", pi, time.Now().UnixNano()%100000))
+			os.MkdirAll(dir, 0o755)
+			defer os.RemoveAll(dir)
+			overlay := map[string]string{}
+			var pkgName, pkgDirPath string
+			var entries []string
+			for _, hf := range hfs {
+				if hf.PkgPath != pkg {
+					continue
+				}
+				real := filepath.Join(dir, filepath.Base(hf.Virtual))
+				os.WriteFile(real, hf.Src, 0o644)
+				overlay[hf.Virtual] = real
+				pkgDirPath = filepath.Dir(hf.Virtual)
+				pkgName = packageName(hf.Src)
+				for _, e := range hf.Entries {
+					entries = append(entries, e.Func)
+				}
+			}
+			rt := "package " + pkgName + "\n" + nativeRT
+			os.WriteFile(filepath.Join(dir, "zz_symgo_rt.go"), []byte(rt), 0o644)
+			overlay[filepath.Join(pkgDirPath, "zz_symgo_rt.go")] = filepath.Join(dir, "zz_symgo_rt.go")
+			var tb strings.Builder
+			tb.WriteString("package " + pkgName + "\n\nimport \"testing\"\n\nfunc TestZZSymgoNative(t *testing.T) {\n\tzzRunCases(map[string]func(){\n")
+			for _, e := range entries {
+				fmt.Fprintf(&tb, "\t\t%q: %s,\n", e, e)
+			}
+			tb.WriteString("\t})\n}\n")
+			os.WriteFile(filepath.Join(dir, "zz_symgo_native_test.go"), []byte(tb.String()), 0o644)
+			overlay[filepath.Join(pkgDirPath, "zz_symgo_native_test.go")] = filepath.Join(dir, "zz_symgo_native_test.go")
+			for k, v := range sym.NativeOverlay {
+				overlay[k] = v
+			}
+			ob, _ := json.Marshal(map[string]any{"Replace": overlay})
+			ovPath := filepath.Join(dir, "overlay.json")
+			os.WriteFile(ovPath, ob, 0o644)
+			type zc struct {
+				Entry  string            `json:"entry"`
+				Inputs map[string]uint64 `json:"inputs"`
+				Params map[string]int64  `json:"params"`
+			}
+			var zcs []zc
+			for _, i := range idxs {
+				zcs = append(zcs, zc{Entry: cases[i].Entry, Inputs: cases[i].Fixed, Params: cases[i].Params})
+			}
+			cb, _ := json.Marshal(zcs)
+			casePath := filepath.Join(dir, "cases.json")
+			os.WriteFile(casePath, cb, 0o644)
+			cmd := exec.Command("go", "test", "-vet=off", "-count=1", "-run", "^TestZZSymgoNative$", "-v", "-timeout", "300s", "-overlay", ovPath, pkg)
+			cmd.Dir = repo
+			cmd.Env = append(os.Environ(), "ZZSYM_CASES="+casePath, "GOFLAGS=-mod=mod", "GOPROXY=off")
+			out, _ := cmd.CombinedOutput()
+			mu.Lock()
+			defer mu.Unlock()
+			outAll.Write(out)
+			cur := -1
+			for _, line := range strings.Split(string(out), "\n") {
+				line = strings.TrimSpace(line)
+				switch {
+				case strings.HasPrefix(line, "ZZSYM-CASE ") && strings.HasSuffix(line, " BEGIN"):
+					n, _ := strconv.Atoi(strings.Fields(line)[1])
+					if n < len(idxs) {
+						cur = idxs[n]
+						results[cur].Ran = true
+					}
+				case strings.HasPrefix(line, "ZZSYM-CASE ") && strings.HasSuffix(line, " END"):
+					cur = -1
+				case cur >= 0 && strings.HasPrefix(line, "ZZSYM-ASSERT-FAIL "):
+					results[cur].AssertFails = append(results[cur].AssertFails, strings.TrimPrefix(line, "ZZSYM-ASSERT-FAIL "))
+				case cur >= 0 && strings.HasPrefix(line, "ZZSYM-PANIC "):
+					results[cur].Panic = strings.TrimPrefix(line, "ZZSYM-PANIC ")
+				case cur >= 0 && line == "ZZSYM-ASSUME-FAIL":
+					results[cur].AssumeFail = true
+				case cur >= 0 && strings.HasPrefix(line, "ZZSYM-OBS "):
+					results[cur].Obs = append(results[cur].Obs, strings.TrimPrefix(line, "ZZSYM-OBS "))
+				}
+			}
+		}(pi, pkg)
+	}
+	wg.Wait()
+	return results, outAll.String()
+}
+
+func packageName(src []byte) string {
+	for _, line := range strings.Split(string(src), "\n") {
+		line = strings.TrimSpace(line)
+		if strings.HasPrefix(line, "package ") {
+			return strings.Fields(line)[1]
+		}
+	}
+	return "main"
+}
+
+// differential runs witness inputs of explored paths through both the interpreter (concretely)
+// and the native build and compares assertion outcomes, panics and observations.
+func differential(repo, work string, hfs []*sym.HarnessFile, l *sym.Loaded, tier string, reports []*entryReport, tc tierCfg, only string) (int, []string, []replayCase) {
+	var cases []replayCase
+	type meta struct {
+		e *sym.EntrySpec
+		p *sym.Program
+	}
+	var metas []meta
+	for _, hf := range hfs {
+		if !nativeReplayable(hf) {
+			continue
+		}
+		p, err := sym.NewProgram(l, hf, tier)
+		if err != nil {
+			continue
+		}
+		for _, e := range hf.Entries {
+			var rep *entryReport
+			for _, r := range reports {
+				if r.Name == e.Func {
+					rep = r
+				}
+			}
+			if rep == nil {
+				continue
+			}
+			n := 0
+			for _, s := range rep.Samples {
+				if n >= tc.NativeN {
+					break
+				}
+				fixed := parseWitness(s)
+				if fixed == nil {
+					continue
+				}
+				n++
+				cases = append(cases, replayCase{Pkg: hf.PkgPath, Entry: e.Func, Params: p.Params, Fixed: fixed})
+				metas = append(metas, meta{e, p})
+			}
+		}
+	}
+	if len(cases) == 0 {
+		return 0, nil, nil
+	}
+	nres, out := nativeReplay(repo, work, hfs, cases)
+	var mism []string
+	validated := 0
+	for i, c := range cases {
+		m := metas[i]
+		fn := l.Pkgs[m.e.File.PkgPath].Func(m.e.Func)
+		cfg := sym.RunConfig{P: m.p, Entry: fn, Name: m.e.Func, Workers: 1, MaxPaths: 10,
+			Lim: sym.Limits{MaxDecisions: tc.MaxDec, MaxSteps: tc.MaxSteps, EnumCap: tc.EnumCap}, Fixed: c.Fixed}
+		r := sym.Explore(cfg)
+		if !nres[i].Ran {
+			mism = append(mism, fmt.Sprintf("%s: native run did not execute (build failure?) output: %s", c.Entry, clip(out, 1500)))
+			break
+		}
+		var ifails []string
+		ipanic := false
+		for _, v := range r.Stats.Violations {
+			if v.Kind == "panic" {
+				ipanic = true
+			} else {
+				ifails = append(ifails, v.Label)
+			}
+		}
+		iassume := r.Stats.Aborted["assume"] > 0
+		a := fmt.Sprintf("fails=%v panic=%v assume=%v obs=%v", ifails, ipanic, iassume, r.Observes)
+		b := fmt.Sprintf("fails=%v panic=%v assume=%v obs=%v", nres[i].AssertFails, nres[i].Panic != "", nres[i].AssumeFail, nres[i].Obs)
+		if len(r.Stats.EngineErrors) > 0 {
+			mism = append(mism, fmt.Sprintf("%s: interpreter error in concrete mode: %s", c.Entry, clip(r.Stats.EngineErrors[0], 300)))
+			continue
+		}
+		if a != b {
+			mism = append(mism, fmt.Sprintf("%s inputs=%v: interpreter{%s} native{%s}", c.Entry, c.Fixed, clip(a, 400), clip(b, 400)))
+			continue
+		}
+		validated++
+	}
+	return validated, mism, cases
+}
+
+// parseWitness extracts name=value pairs from a sample path string.
+func parseWitness(s string) map[string]uint64 {
+	i := strings.Index(s, "witness{")
+	if i < 0 {
+		return nil
+	}
+	body := s[i+8:]
+	if j := strings.LastIndex(body, "}"); j >= 0 {
+		body = body[:j]
+	}
+	if strings.Contains(body, "...") {
+		return nil
+	}
+	out := map[string]uint64{}
+	for _, kv := range strings.Fields(body) {
+		k, v, ok := strings.Cut(kv, "=")
+		if !ok {
+			continue
+		}
+		n, err := strconv.ParseUint(v, 10, 64)
+		if err != nil {
+			continue
+		}
+		out[k] = n
+	}
+	return out
+}
+
+func crossSolver(primary string) string {
+	if primary == "cvc5" {
+		return "z3"
+	}
+	return "cvc5"
+}
+
+// crossCheck re-decides the dumped (expected unsat) obligations with a second solver.
+func crossCheck(dir string, tc tierCfg, primary string) (int, []string) {
+	files, _ := filepath.Glob(filepath.Join(dir, "*-unsat.smt2"))
+	sort.Strings(files)
+	var bad []string
+	n := 0
+	var mu sync.Mutex
+	var wg sync.WaitGroup
+	sem := make(chan struct{}, 8)
+	for _, f := range files {
+		wg.Add(1)
+		go func(f string) {
+			defer wg.Done()
+			sem <- struct{}{}
+			defer func() { <-sem }()
+			var cmd *exec.Cmd
+			if crossSolver(primary) == "cvc5" {
+				cmd = exec.Command("cvc5", "--lang=smt2", fmt.Sprintf("--tlimit=%d", tc.TimeoutMs), f)
+			} else {
+				cmd = exec.Command("z3", fmt.Sprintf("-T:%d", tc.TimeoutMs/1000+1), f)
+			}
+			// cvc5 needs a logic
+			src, _ := os.ReadFile(f)
+			tmp := f + ".x.smt2"
+			os.WriteFile(tmp, append([]byte("(set-logic ALL)\n"), src...), 0o644)
+			cmd.Args[len(cmd.Args)-1] = tmp
+			out, _ := cmd.CombinedOutput()
+			os.Remove(tmp)
+			res := strings.TrimSpace(string(out))
+			mu.Lock()
+			defer mu.Unlock()
+			switch {
+			case strings.HasPrefix(res, "unsat"):
+				n++
+			case strings.HasPrefix(res, "sat"):
+				bad = append(bad, filepath.Base(f)+": primary says unsat, second solver says sat")
+			case strings.Contains(res, "error"):
+				bad = append(bad, filepath.Base(f)+": second solver error: "+clip(res, 200))
+			default:
+				// timeout/unknown in the second solver: not counted, not an alarm
+			}
+		}(f)
+	}
+	wg.Wait()
+	return n, bad
 }
